@@ -267,7 +267,7 @@ func (h *harness) genCase(r *rng, name, stream string, nops int) *Case {
 		c.Cfg.Frag = float32(f)
 		c.Cfg.SyncMode = r.chance(50)
 	}
-	if h.prop == "C05" || h.prop == "C15" || h.prop == "C07" {
+	if h.prop == "C05" || h.prop == "C15" || h.prop == "C07" || h.prop == "C10" {
 		// frequent compaction: small segments, low thresholds
 		c.Cfg.MaxSeg = []uint32{1024, 1024, 2048}[r.intn(3)]
 		c.Cfg.MinSeg = []uint32{1, 600}[r.intn(2)]
@@ -285,7 +285,7 @@ func (h *harness) genCase(r *rng, name, stream string, nops int) *Case {
 		npool = 2 + r.intn(5)
 		flavour = 0
 	}
-	if h.prop == "C15" && r.chance(50) {
+	if (h.prop == "C15" || h.prop == "C10") && r.chance(50) {
 		// few keys, overwritten and deleted over and over: segments whose records are all dead
 		npool = 2 + r.intn(5)
 		flavour = 0
@@ -546,6 +546,32 @@ func (h *harness) genCase(r *rng, name, stream string, nops int) *Case {
 		c.Ops = append(c.Ops, o, Op{Kind: "dump"}, Op{Kind: "items"})
 		return c
 	}
+	if stream == "ops" && (h.prop == "C10" || h.prop == "C15") && r.chance(20) {
+		// every record dies, compaction removes every segment (the handle keeps pointing at a removed
+		// one), then Close/Open and operations on the closed handle
+		h.stat("gen.allsegmentsgone")
+		c.Cfg.MaxSeg = []uint32{1024, 2048}[r.intn(2)]
+		c.Cfg.MinSeg = 1
+		c.Cfg.FragStr, c.Cfg.Frag = "0.01", 0.01
+		c.Pool = keyPool(r, c.Cfg.HashSeed, 3, 0)
+		for round, nr := 0, 1+r.intn(3); round < nr; round++ {
+			for i, n := 0, 2+r.intn(8); i < n; i++ {
+				c.Ops = append(c.Ops, Op{Kind: "put", K: c.Pool[r.intn(len(c.Pool))], V: patternBytes(20+r.intn(150), byte(r.next()))})
+			}
+			for _, k := range c.Pool {
+				c.Ops = append(c.Ops, Op{Kind: "del", K: k})
+			}
+			c.Ops = append(c.Ops, Op{Kind: "compact"})
+			switch r.intn(4) {
+			case 0:
+				c.Ops = append(c.Ops, Op{Kind: "sync"})
+			case 1:
+				c.Ops = append(c.Ops, Op{Kind: "backup"})
+			}
+			c.Ops = append(c.Ops, Op{Kind: "reopen"}, Op{Kind: "items"})
+		}
+		return c
+	}
 	if stream == "ploss" && (h.prop == "C06" || h.prop == "C09") && r.chance(15) {
 		// Close wins the race with a compaction that has just picked (and sealed) the CURRENT segment
 		// while it holds records written since the last Sync: Close returning nil is a durable checkpoint
@@ -741,6 +767,8 @@ func (h *harness) genCase(r *rng, name, stream string, nops int) *Case {
 		wCompact, wCrash, wReopen = 14, 2, 2
 	case "C06":
 		wCompact, wSync, wCrash, wReopen = 12, 8, 3, 2
+	case "C10":
+		wReopen, wCompact = 10, 10
 	case "C09":
 		wReopen, wCrash, wSync = 12, 3, 4
 	case "C02":
@@ -763,7 +791,7 @@ func (h *harness) genCase(r *rng, name, stream string, nops int) *Case {
 		// Open followed by Close with no writes at all
 		c.Ops = append(c.Ops, Op{Kind: "reopen"})
 	}
-	if h.prop == "C15" {
+	if h.prop == "C15" || h.prop == "C10" {
 		wDel = 30
 	}
 	// phase: fill first so that splits/overflow/rollover happen
@@ -1734,6 +1762,36 @@ func (s *session) failOpen() {
 	}
 }
 
+// useAfterClose: operations on a handle whose Close has returned nil lose the race with Close by the
+// widest margin: they must fail (or be harmless reads), must not panic and must leave no trace in the
+// directory the database has released.
+func (s *session) useAfterClose() {
+	if s.db == nil || (!s.r.chance(35) && s.h.prop != "C10" && s.h.prop != "C15") {
+		return
+	}
+	db := s.db
+	before := dirLine(s.sim.Snapshot())
+	call := func(f func() error) (res string) {
+		defer func() {
+			if e := recover(); e != nil {
+				res = "panic:" + strings.ReplaceAll(fmt.Sprint(e), " ", "_")
+			}
+		}()
+		return errStr(f())
+	}
+	k := []byte("after-close")
+	put := call(func() error { return db.Put(k, []byte("x")) })
+	del := call(func() error { return db.Delete(s.c.Pool[s.r.intn(len(s.c.Pool))]) })
+	syn := call(func() error { return db.Sync() })
+	cmp := call(func() error { _, err := db.Compact(); return err })
+	same := 0
+	if dirLine(s.sim.Snapshot()) == before {
+		same = 1
+	}
+	s.h.emit("afterclose put=%s del=%s sync=%s compact=%s dirsame=%d handles=%d", put, del, syn, cmp, same, s.sim.OpenHandles())
+	s.h.stat("afterclose")
+}
+
 // failClose: one file-system call inside Close fails. A Close that returned an error did not
 // complete: the lock file must still be there and the next Open must recover.
 func (s *session) failClose() {
@@ -1874,6 +1932,7 @@ func (h *harness) runCase(c *Case, stream string, r *rng) {
 			}
 			h.emit("syncpoint")
 			h.emit("dir %s handles=%d", dirLine(s.sim.Snapshot()), s.sim.OpenHandles())
+			s.useAfterClose()
 			if s.open("clean") {
 				s.images("stable")
 				h.emit("state %s", observe(s.db, c.Pool))
